@@ -87,6 +87,22 @@ def classify(r):
     for k in ((f, ln, op), (f, ln, None)):
         if k in L:
             return L[k]
+    if op == "narrow16":
+        return (EQ_NOOP, "the operand is a byte, a 13-bit field or another value below 65536")
+    if op == "narrow8":
+        if "MarshalSize()" in orig:
+            return (EQ_NOOP, "BYE, NACK and SLI packets have at most 255 words (their list limits), so the length fits 8 bits")
+        if "wireSize(b)" in orig:
+            return (EQ_NOOP, "a fixed-size XR block (2, 9 or 8 words)")
+        return (EQ_NOOP, "the operand is a constant, a loop index below 14 or a masked byte")
+    if op == "len16":
+        if f == "packet.go" or (f == "compound_packet.go" and ln == 27):
+            return (OUT, "a list of 65536 or more packets")
+        return (EQ_NOOP, "this length is bounded far below 65536 - by the wire format (at most 31 reports / chunks / sources, 255 SSRCs or text octets, 253 pairs, 16384 metric blocks, 32766 FIR entries or report blocks), by the fixed size of the buffer handed in, or by an earlier check")
+    if op == "lit0":
+        for k in ((f, ln, "lit-1"), (f, ln, "lit+1"), (f, ln, None)):
+            if k in L:
+                return L[k]
     if op == "trunc16":
         return (EQ_NOOP, "the operand is an 8- or 16-bit value (or a small constant / reflect size)")
     if op == "del-assign" and orig.startswith("out +="):
